@@ -21,12 +21,12 @@ volatile int verif_go[4]; volatile int verif_rq[4]; volatile int verif_env_of[4]
 volatile int verif_handoff_env[4]; volatile int verif_entry_kind[4]; volatile int verif_on_own_stack[4];
 void *verif_spawn_a1[4], *verif_spawn_a2[4], *verif_spawn_a3[4];
 
-#if VN == 2
 void verif_m_save(int me){
   verif_check(!verif_ctx_saved[me], "model: a context is saved only while its thread runs");
   verif_ctx_saved[me] = 1; verif_on_own_stack[me] = 0;
 }
 void verif_m_leave_stack(int me){ verif_on_own_stack[me] = 0; }
+#if VN == 2
 static inline struct myth_thread *verif_td(int k){ return k == 0 ? &TD0 : &TD1; }
 #elif VN == 3
 static inline struct myth_thread *verif_td(int k){ return k == 0 ? &TD0 : k == 1 ? &TD1 : &TD2; }
